@@ -29,15 +29,17 @@ def newFrame (parent : Nat) : EvalM N Nat := do
   set ({ frames := s.frames.push { parent := some parent, syms := [] } } : Store N)
   return s.frames.size
 
-def bindVar (env : Nat) (name : String) (v : Option (Val N)) : EvalM N Unit :=
-  modify fun s =>
-    match s.frames[env]? with
-    | some fr =>
-      let syms := if fr.syms.any (fun p => p.1 == name)
-        then fr.syms.map (fun p => if p.1 == name then (name, v) else p)
-        else (name, v) :: fr.syms
-      { frames := s.frames.set! env { fr with syms := syms } }
-    | none => s
+/-- Go map assignment on a frame's symbol table: replace in place or add -/
+def bindSyms (syms : List (String × Option (Val N))) (name : String) (v : Option (Val N)) :
+    List (String × Option (Val N)) :=
+  if syms.any (fun p => p.1 == name) then syms.map (fun p => if p.1 == name then (name, v) else p)
+  else (name, v) :: syms
+
+/-- env.go `bind` -/
+def bindVar (env : Nat) (name : String) (v : Option (Val N)) : EvalM N Unit := fun s =>
+  .ok ((), match s.frames[env]? with
+    | some fr => { frames := s.frames.set! env { fr with syms := bindSyms fr.syms name v } }
+    | none => s)
 
 /-- env.go `lookup`, walking the scope chain; `fuel` bounds the chain length
     (the chain is acyclic: a frame's parent always has a smaller index). -/
@@ -586,6 +588,12 @@ def validArgType : Nat → Val N → Param → Bool
     | .null => false
     | _ => hasBit typ ptFunc
 
+/-- "append undefined for the trailing optional parameters that were not supplied"
+    (the loop shared by goCallable.validateArgCount and lambdaCallable.validateArgCount):
+    `opts[i]` says whether parameter i is optional -/
+def padOptional (opts : List Bool) (argv : List (Option (Val N))) : List (Option (Val N)) :=
+  argv ++ ((opts.drop argv.length).takeWhile id).map (fun _ => none)
+
 /-- callable.go lambdaCallable.validateArgCount -/
 def lambdaArgCount (sig : List Param) (ctx : Option (Val N)) (argv : List (Option (Val N))) :
     Except Err (List (Option (Val N))) :=
@@ -593,17 +601,7 @@ def lambdaArgCount (sig : List Param) (ctx : Option (Val N)) (argv : List (Optio
   let argv1 :=
     if argv.length < paramCount && (sig.head?.map (·.opt)) == some ParamOpt.contextable
     then ctx :: argv else argv
-  -- append undefined for trailing optional parameters
-  let rec pad (i : Nat) (fuel : Nat) (a : List (Option (Val N))) : List (Option (Val N)) :=
-    match fuel with
-    | 0 => a
-    | f + 1 =>
-      if i < paramCount then
-        match sig[i]? with
-        | some p => if p.opt == .optional then pad (i + 1) f (a ++ [none]) else a
-        | none => a
-      else a
-  let argv2 := pad argv1.length paramCount argv1
+  let argv2 := padOptional (sig.map fun p => p.opt == .optional) argv1
   let isVar := paramCount > 0 && (sig.getLast?.map (·.opt)) == some ParamOpt.variadic
   if argv2.length < paramCount || (argv2.length > paramCount && !isVar) then .error .argCount
   else .ok argv2
